@@ -58,6 +58,7 @@ var Prop = &engine.Prop{
 		{Name: "multi-exec", Quick: 60, Thorough: 2400, Fn: multiExecCase},
 		{Name: "ctx-handoff", Quick: 400, Thorough: 16000, Fn: ctxHandoffCase},
 		{Name: "shared-callctx", Quick: 300, Thorough: 12000, Fn: sharedCallCtxCase},
+		{Name: "stop-race", Quick: 40, Thorough: 1600, Fn: stopRaceCase},
 	},
 	Floors: map[string]int64{
 		"queued_behind_running":   500,
